@@ -77,6 +77,10 @@ pub enum Source {
     Model(ParamSpec, Variant),
     /// arbitrary bytes
     Raw(Vec<u8>),
+    /// content = `to_yaml()` of the first set, called while the other sets are being serialised by
+    /// concurrent simulated caller tasks (one per set) under the given seeded schedule: whatever
+    /// the writer shares between callers (a memo, a scratch buffer) is contended
+    ToYamlRacing(ParamSpec, Vec<ParamSpec>, crate::sim::SimCfg),
 }
 
 #[derive(Clone, Debug, Serialize, Deserialize, PartialEq)]
@@ -260,6 +264,29 @@ fn content_of(src: &Source) -> Result<Vec<u8>, String> {
         }
         Source::Model(p, v) => Ok(model_yaml(p, v).into_bytes()),
         Source::Raw(b) => Ok(b.clone()),
+        Source::ToYamlRacing(p, others, cfg) => {
+            let (p, others) = (p.clone(), others.clone());
+            let out = sim::simulate(cfg, move || {
+                let mut hs = Vec::new();
+                for o in others.iter().cloned() {
+                    hs.push(shuttle::thread::spawn(move || {
+                        let q = o.params();
+                        for _ in 0..2 {
+                            let _ = q.to_yaml();
+                        }
+                    }));
+                }
+                let text = p.params().to_yaml();
+                for h in hs {
+                    h.join().unwrap();
+                }
+                text
+            });
+            match out.result {
+                Ok(s) => Ok(s.into_bytes()),
+                Err(a) => Err(format!("{a:?}")),
+            }
+        }
     }
 }
 
@@ -447,6 +474,7 @@ fn expectation(src: &Source) -> Option<(ParamSpec, f64, &'static str)> {
         }
         Source::Model(p, v) => Some((model_expectation(p, v), 1e-12, "documented-variant")),
         Source::Raw(_) => None,
+        Source::ToYamlRacing(p, _, _) => expectation(&Source::ToYaml(p.clone())),
     }
 }
 
@@ -495,6 +523,7 @@ pub fn judge_in(case: &Case, scratch: &Path) -> Vec<Fail> {
                                     Source::ToYaml(p) => format!("to_yaml/{}", roundtrip_features(p)),
                                     Source::Model(p, v) => format!("model/{}", variant_features(p, v)),
                                     Source::Raw(_) => "raw".into(),
+                                    Source::ToYamlRacing(p, ..) => format!("to_yaml-with-concurrent-callers/{}", roundtrip_features(p)),
                                 };
                                 match &res {
                                     Err(e) => fails.push(Fail {
@@ -842,9 +871,11 @@ fn run_base(seed: u64, shard: usize, base: usize, t: &Tier, scratch: &Path, tall
     // the simulated disk's timestamps: mostly a constant stamp (see Case::mtime_s)
     let mtime_s = {
         let mut d = Rng::derive(seed, shard as u64, base as u64, "c19.disk");
-        if d.chance(0.7) { Some(1_600_000_000u64) } else { None }
+        // ... now and then a stamp AHEAD of the reader's clock (clock skew between the machine
+        // that wrote a network share and the one that reads it, a clock stepped back since)
+        if d.chance(0.7) { Some(1_600_000_000u64) } else if d.chance(0.4) { Some(4_102_444_800u64) } else { None }
     };
-    tally.bump(if mtime_s.is_some() { "bases_on_a_disk_with_constant_mtime" } else { "bases_on_a_disk_with_real_mtime" }, 1);
+    tally.bump(match mtime_s { Some(t) if t > 4_000_000_000 => "bases_on_a_disk_with_mtime_in_the_future (clock skew)", Some(_) => "bases_on_a_disk_with_constant_mtime", None => "bases_on_a_disk_with_real_mtime" }, 1);
     let mk = |ops: Vec<Op>| Case { sources: sources.clone(), ops, mtime_s, regen: None, regen_reads: None };
     // history of the WRITER: the same geometry and offsets serialised twice in a row with other
     // sign corrections / degrees of freedom (a robot and its mirrored or 5-DOF sibling; one object
@@ -875,6 +906,28 @@ fn run_base(seed: u64, shard: usize, base: usize, t: &Tier, scratch: &Path, tall
         run_case(&two, scratch, tally, seen, (shard, base));
         let back = Case { sources: vec![Source::ToYaml(sib), Source::ToYaml(pa.clone())], ops: vec![Op::Write(1)], mtime_s, regen: None, regen_reads: None };
         run_case(&back, scratch, tally, seen, (shard, base));
+    }
+    // concurrent callers of the WRITER: a third of the bases serialise `pa` while one to three
+    // other sets (other offsets: every angle differs) are serialised by concurrent simulated tasks
+    if base % 3 == 1 {
+        let mut r = Rng::derive(seed, shard as u64, base as u64, "c19.racing");
+        let others: Vec<ParamSpec> = (0..r.range_usize(1, 3))
+            .map(|k| {
+                let mut o = if k == 0 { pb.clone() } else { pa.clone() };
+                for j in 0..6 {
+                    o.offsets[j] = match r.below(4) {
+                        0 => 0.0,
+                        1 => (pa.offsets[j] + 0.5 * (k as f64 + 1.0)).rem_euclid(3.0),
+                        _ => r.range_f64(-3.1, 3.1),
+                    };
+                }
+                o
+            })
+            .collect();
+        let cfg = crate::sim::SimCfg::swarm(&mut r, simctx::mix(&[seed, shard as u64, base as u64, 19]), 0, 200_000);
+        let racing = Case { sources: vec![Source::ToYamlRacing(pa.clone(), others, cfg)], ops: vec![Op::Write(0)], mtime_s, regen: None, regen_reads: None };
+        tally.bump("to_yaml_with_concurrent_callers_serialising_other_sets", 1);
+        run_case(&racing, scratch, tally, seen, (shard, base));
     }
     // fault-free configuration (run separately from the fault-injecting one)
     run_case(&mk(vec![Op::Write(0)]), scratch, tally, seen, (shard, base));
